@@ -35,6 +35,7 @@ def execOp (st : DrvState) (toks : List String) : DrvState × String :=
     ({ st with pipe := w' }, out)
   | "frame" :: op :: args => (st, execReader "frame" op args)
   | "udpbuf" :: op :: args => (st, execReader "udpbuf" op args)
+  | "race" :: _ => (st, "skip")
   | "wire" :: _ => (st, "skip")     -- wire stage: real sockets and goroutines; oracles only
   | stream :: op :: args =>
     if ["rr", "route", "res", "pins", "pool"].contains stream then
